@@ -25,13 +25,22 @@ def verify_function(key: str, budget_ms: int = 8000) -> dict:
         out["paths"] = list(vc.n_paths)
         mustfail = []
         spent = 0.0
-        for ob in obs:
+        # pass 1: the quick in-process stage on every obligation; pass 2: fresh-process stages on what is left, contract
+        # clauses before auxiliary (invariant) obligations, within the per-function budget
+        first = {}
+        for i, ob in enumerate(obs):
+            first[i] = check_obligation(vc, ob, 3000 if ob.kind == "mustfail" else budget_ms, mode="fast" if ob.kind not in ("mustfail", "cover") else "all")
+        order = sorted((i for i in first if first[i][0] == "unknown" and obs[i].kind not in ("mustfail", "cover") and not _is_false_goal(obs[i])), key=lambda i: (bool(obs[i].aux), i))
+        for i in order:
             if spent > 150:
-                st, dt, detail = "unknown", 0.0, "skipped: per-function solver budget (150 s) exhausted"
-            else:
-                st, dt, detail = check_obligation(vc, ob, 3000 if ob.kind == "mustfail" else budget_ms)
+                first[i] = ("unknown", first[i][1], "skipped: per-function solver budget (150 s) exhausted")
+                continue
+            st, dt, detail = check_obligation(vc, obs[i], budget_ms, mode="external")
             if st != "proved":
                 spent += dt
+            first[i] = (st, first[i][1] + dt, detail)
+        for i, ob in enumerate(obs):
+            st, dt, detail = first[i]
             rec = {"name": ob.name, "kind": ob.kind, "status": st, "secs": round(dt, 3), "clause": str(ob.info.get("clause", ""))[:400],
                    "aux": bool(ob.aux), "path": ob.info.get("path", ""), "backend": detail if st == "proved" else "", "detail": "" if st == "proved" else str(detail)[:1500]}
             if "trace" in ob.info:
@@ -55,6 +64,11 @@ def verify_function(key: str, budget_ms: int = 8000) -> dict:
         out["detail"] = traceback.format_exc()[-3000:]
     out["wall_s"] = round(time.time() - t0, 3)
     return out
+
+
+def _is_false_goal(ob):
+    import z3
+    return z3.is_false(ob.goal)
 
 
 _PROJ = None
